@@ -17,6 +17,8 @@ WORK = os.getcwd()
 
 
 def _classify(exc):
+    if isinstance(exc, CallableRaised):
+        return 'Raised:Callable'
     if isinstance(exc, KeyError):
         return 'Raised:Key'
     if isinstance(exc, ValueError):
@@ -28,12 +30,24 @@ def _classify(exc):
     return 'Raised:Other'
 
 
-def allowed_arg(a):
+class CallableRaised(Exception):
+    """what the harness' allowed_symbols callable raises on the characters it is told to reject loudly"""
+
+
+def allowed_arg(a, raises=None):
     if a['kind'] == 'all':
         return 'all'
     if a['kind'] == 'expr':
         return a['expr']
     ranges = [(lo, hi) for lo, hi in a['ranges']]
+    if raises:
+        bad = [(lo, hi) for lo, hi in raises]
+
+        def allowed(ch):
+            if any(lo <= ch <= hi for lo, hi in bad):
+                raise CallableRaised(ch)
+            return any(lo <= ch <= hi for lo, hi in ranges)
+        return allowed
     return lambda ch: any(lo <= ch <= hi for lo, hi in ranges)
 
 
@@ -66,12 +80,28 @@ def op_create_event_file(t):
         event = os.path.join(d, 'events.tab.gz')
         with open(corpus, 'w', encoding='utf-8', newline='\n') as f:
             f.write('\n'.join(t['lines']) + ('\n' if t.get('trailing_newline', True) else ''))
+        readable = None
+        if t.get('bad_byte_after') is not None:
+            # the corpus is not valid UTF-8 from some byte on: `bad_byte_after` complete lines, then 0xFF
+            text = '\n'.join(t['lines']) + ('\n' if t.get('trailing_newline', True) else '')
+            k = t['bad_byte_after']
+            head = '\n'.join(t['lines'][:k]) + ('\n' if k else '')
+            with open(corpus, 'wb') as f:
+                f.write(head.encode('utf-8') + b'\xff' + text[len(head):].encode('utf-8'))
+            # Python-supplied: the lines the text layer yields before it raises (depends on its 8 KiB chunks)
+            readable = []
+            try:
+                with open(corpus, 'rt', encoding='utf-8') as f:
+                    for line in f:
+                        readable.append(line)
+            except UnicodeDecodeError:
+                pass
         before = None
         if t.get('exists'):
             with open(event, 'wb') as f:
                 f.write(b'previous content \x00\x01 of the event file\n')
             before = open(event, 'rb').read()
-        kw = dict(allowed_symbols=allowed_arg(t['allowed']),
+        kw = dict(allowed_symbols=allowed_arg(t['allowed'], t.get('raises')),
                   context_structure=t['context'],
                   event_structure=t['event'],
                   cue_structure=t['cue'],
@@ -90,6 +120,16 @@ def op_create_event_file(t):
             res = {'err': _classify(e), 'cls': type(e).__name__, 'msg': str(e)[:200]}
             if before is not None:
                 res['file_unchanged'] = os.path.isfile(event) and open(event, 'rb').read() == before
+            elif os.path.isfile(event):
+                # a failure after the event file was opened: what is left behind
+                try:
+                    res['left'] = parse_event_file(event)
+                except Exception as e2:  # noqa
+                    res['left'] = {'unreadable': '%s: %s' % (type(e2).__name__, e2)}
+            else:
+                res['left'] = None
+            if readable is not None:
+                res['readable'] = [x.rstrip('\n') for x in readable]
             res['listing'] = sorted(os.listdir(d))
             return res
         if before is not None:
